@@ -196,7 +196,7 @@ pub proof fn lemma_no_limit_push(tr: Seq<Gen>, g: Gen, from: int)
 //@ - final(context).in_specs == old(context).in_specs
 //@ - r is Ok && !old(context).in_specs ==> forall|i: int| 0 <= i < old(tags)@.len() ==>
 //@       succeeded(final(context).tr@, old(context).tr@.len() as int, (#[trigger] old(tags)@[i]).1)     @@C10.retry.complete
-//@ - r is Ok && !old(context).in_specs ==> no_limit_err(final(context).tr@, old(context).tr@.len() as int)     @@C17.limit.final
+//@ - r is Ok && !old(context).in_specs ==> no_limit_err(final(context).tr@, old(context).tr@.len() as int)     @@C17.limit.final @@C01.retry.limit_final
 //@ - r is Ok ==> r->Ok_0 == union_spec(final(bbb).boxes())     @@C08.union.result
 //@ - r is Ok && !old(context).in_specs ==> final(bbb).boxes() == old(bbb).boxes() + ok_boxes(final(context).tr@, old(context).tr@.len() as int, final(context).tr@.len() as int)     @@C08.union.all
 //@ - r is Ok && old(context).in_specs ==> final(bbb).boxes() == old(bbb).boxes()     @@C08.union.specs_silent @@C18.specs.silent
@@ -224,7 +224,7 @@ pub proof fn lemma_no_limit_push(tr: Seq<Gen>, g: Gen, from: int)
 //@ - !context.in_specs ==> pending_covers(g_orig, tags@, context.tr@, g_from)
 //@ - !context.in_specs ==> forall|j: int| 0 <= j < it.index@ ==> succeeded(context.tr@, g_from, (#[trigger] tags@[j]).1)
 //@       || exists|m: int| 0 <= m < remain@.len() && (#[trigger] remain@[m]).1 == tags@[j].1
-//@ - !context.in_specs ==> no_limit_err(context.tr@, g_from)     @@C17.limit.final.loop
+//@ - !context.in_specs ==> no_limit_err(context.tr@, g_from)     @@C17.limit.final.loop @@C01.retry.limit_final.loop
 //@ - !context.in_specs ==> bbb.boxes() == old(bbb).boxes() + ok_boxes(context.tr@, g_from, context.tr@.len() as int)
 //@ - context.in_specs ==> bbb.boxes() == old(bbb).boxes()
 //@end
